@@ -96,6 +96,8 @@ var oddStrategies = []string{
 	strategyPrefix + "/best-route/1",            // trailing component that is not a version
 	strategyPrefix + "/best-route/54=%01%02%03", // version component that is not a number encoding
 	strategyPrefix + "/best-route/54=",          // empty version component
+	strategyPrefix + "/best-route/54=%00%01",    // version 1 in a non-minimal (2-byte) number encoding
+	strategyPrefix + "/multicast/54=%00%00%00%01",
 	strategyPrefix + "/best-route/v=1/x",        // parameters after the version
 	strategyPrefix + "/multicast/v=1/v=1",       //
 	"/localhost/nfd/strategyx/best-route",       //
